@@ -10,22 +10,32 @@ from fractions import Fraction
 from harness import util
 
 THEOREMS = ['C19_unflatten_flatten', 'C19_unflatten_flatten_paths', 'C19_dict_eq_is_pathwise',
-            'C19_flatten_unflatten', 'C19_replace_structure', 'C19_unpack_pack', 'C19_unstack_stack', 'C19_concat_split', 'C19_split_axis_concat',
-            'C19_empty_pytree',
-            'C19_down_up_identity', 'C19_upsample_coef', 'C19_hyps_satisfiable', 'C19_regressions',
-            'C19_replace_example']
+            'C19_flatten_unflatten', 'C19_replace_structure', 'C19_unpack_pack', 'C19_unstack_stack', 'C19_concat_split',
+            'C19_split_axis_concat', 'C19_empty_pytree', 'C19_down_up_identity', 'C19_upsample_coef',
+            'C19_dims_table_documented', 'C19_dims_inference_injective', 'C19_dims_one_layer_refuted',
+            'C19_dims_nodal_eq_modal_refuted', 'C19_attrs_roundtrip', 'C19_attrs_hyps_satisfiable',
+            'C19_hyps_satisfiable', 'C19_regressions', 'C19_replace_example']
 LEVEL = 'proof'
 LEVEL_TEXT = ('machine-checked theorems (Coq) for every nested dictionary (any depth/width, any key names without the '
               'separator incl. the empty string, any number of empty sub-dictionaries): flatten_dict accepts and '
-              'unflatten_dict returns a dictionary == to the input; unpack/pack, unstack/stack, concat/split identities '
-              'for all leaf sizes; spectral down(up(x)) = x and coefficient placement for all shapes; the Gallina model '
-              'is executed (extraction) against the implementation on generated dictionaries / pytrees / grids; '
-              'attrs and xarray round trips are checked on the implementation only (oracles)')
-LEVEL_NOTE = ('theorems are about the Gallina model Model/Trees.v; the separator is a single character (multi-character '
-              'separators are outside the property and not modelled); leaves of dictionaries are integers; arrays are '
-              'lists of slabs along the packing axis; attrs/xarray clauses are implementation-vs-implementation oracles, '
-              'not proved; "same function on the finer grid" is covered by exact coefficient placement + table '
-              'obligations on the basis tables at shared nodes')
+              'unflatten_dict returns a dictionary == to the input, and conversely for prefix-consistent flat dictionaries; '
+              'replace_with_matching_or_default keeps the structure; unpack/pack, unstack/stack, concat/split, '
+              'concat/split_axis identities for all leaf sizes; spectral down(up(x)) = x and coefficient placement for all '
+              'shapes; the shape -> dimension-names table of data_to_xarray is the documented, collision-free one for every '
+              'admissible coordinate system (layers != 1, nodal shape != modal shape) and provably collides outside; '
+              'coordinate_system_from_attrs(asdict(cs)) restores every discretisation field and drops exactly the '
+              'implementation class and the mesh; all Gallina models are executed (extraction) against the implementation '
+              'on generated dictionaries / pytrees / grids / coordinate systems / attribute dictionaries; bit-identical '
+              'dataset read-back and netcdf paths are checked on the implementation only (oracles)')
+LEVEL_NOTE = ('theorems are about the Gallina models Model/Trees.v and Model/Attrs.v; the separator is a single character '
+              '(multi-character separators are outside the property and not modelled); leaves of dictionaries are integers; '
+              'arrays are lists of slabs along the packing axis; the dims theorem is for no user-supplied additional '
+              'coordinates (those, realization included, are covered by exact table correspondence); in from_attrs only the '
+              "registry class 'Grid' is modelled as horizontal grid and attribute values are typed (int/str/float/list); "
+              'constructor validation of the verticals is the C13 acceptance predicate / strict monotonicity; dataset '
+              'read-back (xarray_to_*) and netcdf round trips are implementation-vs-implementation oracles, not proved; '
+              '"same function on the finer grid" is covered by exact coefficient placement + table obligations on the '
+              'basis tables at shared nodes')
 
 _jax = None
 def J():
@@ -117,8 +127,9 @@ def gen_dicts(ctx):
     yield 'dict', {'d': {'': {'b': 1}, 'c': {}}, 'sep': '&', 'prefix': 'p&q'}
     n = 60 if quick else 600
     for i in range(n):
-        sep = ['&', '/', '.', ' '][int(rng.integers(0, 4))] if i % 3 == 0 else '&'
-        depth = int(rng.integers(1, 5))
+        sep = ['/', '.', ' ', '|', 'a'][int(rng.integers(0, 5))] if i % 2 == 0 else '&'
+        depth = int(rng.integers(1, 5)) if i % 4 else int(rng.integers(2, 5))
+        ctx.count('dict:sep=' + ('default' if sep == '&' else 'other'))
         d = rand_dict(rng, depth, sep)
         prefix = '' if i % 7 else ['p', '', 'p' + sep + 'q'][int(rng.integers(0, 3))]
         yield 'dict', {'d': d, 'sep': sep, 'prefix': prefix}
@@ -592,7 +603,7 @@ def r_spectral(ctx, a):
         except ValueError:
             out = None
         ctx.count('%s:%s' % (name, 'ok' if out is not None else 'raises'))
-        for path in (('x',), ('tr', 'q')):
+        for path in (('x',), ('tr', 'q'), ('r4',), ('tr', 'r5')):
             xin = state[path[0]] if len(path) == 1 else state[path[0]][path[1]]
             xo = None if out is None else (out[path[0]] if len(path) == 1 else out[path[0]][path[1]])
             xin2 = np.asarray(xin).reshape((-1,) + np.asarray(xin).shape[-2:])
@@ -607,8 +618,10 @@ def r_spectral(ctx, a):
             ctx.oracle('resampling leaves scalars and the tree structure alone',
                        float(out['s']) == float(state['s']) and set(out) == set(state) and set(out['tr']) == set(state['tr']))
         return out
-    state_c = {'x': data((K,) + sc_), 'tr': {'q': data(sc_)}, 's': np.float64(2.5)}
-    state_f = {'x': data((K,) + sf_), 'tr': {'q': data(sf_)}, 's': np.float64(-1.5)}
+    state_c = {'x': data((K,) + sc_), 'tr': {'q': data(sc_), 'r5': data((1, 2, K) + sc_)}, 'r4': data((2, K) + sc_),
+               's': np.float64(2.5)}
+    state_f = {'x': data((K,) + sf_), 'tr': {'q': data(sf_), 'r5': data((1, 2, K) + sf_)}, 'r4': data((2, K) + sf_),
+               's': np.float64(-1.5)}
     up = run(cs.get_spectral_upsample_fn, 1, csc, csf, state_c, 'upsample')
     run(cs.get_spectral_downsample_fn, 0, csf, csc, state_f, 'downsample')
     run(cs.get_spectral_interpolate_fn, 2, csc, csf, state_c, 'interpolate(coarse->fine)')
@@ -627,10 +640,14 @@ def r_spectral(ctx, a):
                    not (gf.total_wavenumbers >= gc.total_wavenumbers and gf.longitude_wavenumbers >= gc.longitude_wavenumbers),
                    'downsample raised after an accepted upsample')
     # clause: coefficient placement
-    ux = np.asarray(up['x'])
-    ok = np.array_equal(ux[..., :sc_[0], :sc_[1]], state_c['x'])
-    rest = ux.copy(); rest[..., :sc_[0], :sc_[1]] = 0
-    ctx.oracle('up-sampling keeps every coefficient at its index and pads exact zeros', ok and not rest.any() and ux.shape[-2:] == tuple(sf_))
+    for ux, x0 in ((up['x'], state_c['x']), (up['tr']['q'], state_c['tr']['q']), (up['r4'], state_c['r4']),
+                   (up['tr']['r5'], state_c['tr']['r5'])):
+        ux = np.asarray(ux)
+        ok = np.array_equal(ux[..., :sc_[0], :sc_[1]], x0)
+        rest = ux.copy(); rest[..., :sc_[0], :sc_[1]] = 0
+        ctx.oracle('up-sampling keeps every coefficient at its index and pads exact zeros',
+                   ok and not rest.any() and ux.shape == x0.shape[:-2] + tuple(sf_), {'rank': ux.ndim})
+        ctx.count('spectral:leaf-rank=%d' % ux.ndim)
     # table obligation: the same index means the same (m, l) on both grids (inside the coarse mask)
     mcs, lcs = gc.modal_axes; mfs, lfs = gf.modal_axes
     mask = np.asarray(gc.mask)
@@ -656,6 +673,234 @@ def r_spectral(ctx, a):
         nc = np.asarray(gc2.to_nodal(jnp.asarray(x))); nf = np.asarray(gf2.to_nodal(upx))
         scale = float(np.abs(x).sum() * np.abs(pc).max() * np.abs(fc).max()) + 1e-300
         ctx.oracle_close('up-sampled coefficients synthesise the same function (same nodes)', nf, nc, scale=scale)
+
+
+# ---------------------------------------------------------------------------
+# shape -> dimension names (Model/Attrs.v) and the attrs record <-> dict model
+# ---------------------------------------------------------------------------
+DIM_CODE = {'level': 1, 'lon': 2, 'lat': 3, 'longitudinal_mode': 4, 'total_wavenumber': 5, 'time': 6, 'sample': 7,
+            'realization': 8, 'surface': 9}
+_xa = None
+def XA():
+    global _xa
+    if _xa is None:
+        J()
+        import xarray
+        from dinosaur import (xarray_utils as xu, coordinate_systems as cs, spherical_harmonic as sh,
+                              sigma_coordinates as sc, layer_coordinates as lc, vertical_interpolation as vi)
+        _xa = types.SimpleNamespace(xarray=xarray, xu=xu, cs=cs, sh=sh, sc=sc, lc=lc, vi=vi)
+    return _xa
+
+def dim_code(name):
+    if name in DIM_CODE: return DIM_CODE[name]
+    assert name.startswith('extra'), name
+    return 100 + int(name[5:])
+
+def gen_dims(ctx):
+    rng = ctx.rng
+    quick = ctx.tier == 'quick'
+    grids = [(3, 4, 10, 5, 'real'), (3, 4, 10, 5, 'fast'), (4, 5, 7, 5, 'real'), (2, 3, 7, 4, 'real'),
+             (4, 5, 8, 5, 'fast'), (5, 6, 16, 8, 'real'), (2, 3, 3, 3, 'real'), (3, 3, 5, 3, 'real')]
+    n = 30 if quick else 240
+    for i in range(n):
+        g = grids[i % len(grids)] if i < 2 * len(grids) else (
+            int(rng.integers(1, 6)), 0, int(rng.integers(2, 12)), int(rng.integers(2, 8)), ['real', 'fast'][int(rng.integers(0, 2))])
+        lw, tw, ln, lt, impl = g
+        tw = tw or lw + int(rng.integers(0, 2))
+        K = [1, 2, 3, ln, lt, 5][int(rng.integers(0, 6))] if i % 3 else [1, 2, 4][i % 9 // 3]
+        T = None if i % 4 == 0 else [1, 2, K, ln, 3][int(rng.integers(0, 5))]
+        S = None if i % 3 == 0 else [1, 2, K, lt][int(rng.integers(0, 4))]
+        addl = []
+        if i % 5 == 1: addl.append(['extra0', [[2, 7, K, 1, ln][int(rng.integers(0, 5))]]])
+        if i % 10 == 3: addl.append(['extra1', [2, 3]])
+        if i % 7 == 2: addl.append(['realization', [1]])
+        if i % 11 == 4: addl.append(['surface', [1]])
+        if i % 13 == 5: addl += [['extra2', [6]], ['extra3', [6]]]
+        yield 'dims', {'grid': [lw, tw, ln, lt, impl], 'K': int(K), 'T': T, 'S': S, 'addl': addl}
+
+def gen_attrs_model(ctx):
+    rng = ctx.rng
+    quick = ctx.tier == 'quick'
+    muts = [None, None, None, 'drop:radius', 'drop:spherical_harmonics_impl', 'drop:spmd_mesh', 'drop:latitude_spacing',
+            'htype:Nope', 'vtype:Nope', 'vtype:LayerCoordinates', 'vtype:PressureCoordinates', 'vtype:SigmaCoordinates',
+            'novertical', 'spacing:bad', 'drop:horizontal_grid_type', 'drop:longitude_offset', 'bad-vertical']
+    n = 34 if quick else 340
+    for i in range(n):
+        lw = int(rng.integers(1, 7)); ln = int(rng.integers(2, 14)); lt = int(rng.integers(2, 9))
+        kind = ['sigma', 'layer', 'pressure', 'sigma'][i % 4]
+        K = int(rng.integers(1, 7))
+        if kind == 'sigma':
+            inner = np.sort(rng.uniform(0.01, 0.99, size=K - 1))     # full-precision boundaries
+            if K > 1 and not np.all(np.diff(inner) > 1e-6): inner = np.linspace(0, 1, K + 1)[1:-1]
+            v = {'kind': 'sigma', 'values': [0.0] + [float(x) for x in inner] + [1.0]}
+        elif kind == 'layer':
+            v = {'kind': 'layer', 'layers': K}
+        else:
+            v = {'kind': 'pressure', 'values': [float(x) for x in np.sort(rng.uniform(0.5, 1100.0, size=K))]}
+        yield 'attrs_model', {'grid': [lw, lw + int(rng.integers(0, 3)), ln, lt],
+                              'spacing': ['gauss', 'equiangular', 'equiangular_with_poles'][int(rng.integers(0, 3))],
+                              'offset': [0.0, float(rng.uniform(0, 1)), 0.1][int(rng.integers(0, 3))],
+                              'radius': [1.0, float(rng.uniform(0.5, 7e6)), None][int(rng.integers(0, 3))],
+                              'impl': ['RealSphericalHarmonics', 'FastSphericalHarmonics', 'RealSphericalHarmonicsWithZeroImag'][int(rng.integers(0, 3))],
+                              'vertical': v, 'mut': muts[i % len(muts)]}
+
+
+def _layer_cs(g, K):
+    x = XA(); sh_, cs_, sc_, impls = SP()
+    lw, tw, ln, lt, impl = g
+    grid = x.sh.Grid(longitude_wavenumbers=lw, total_wavenumbers=tw, longitude_nodes=ln, latitude_nodes=lt,
+                     spherical_harmonics_impl=impls[impl])
+    return x.cs.CoordinateSystem(grid, x.lc.LayerCoordinates(K))
+
+
+def r_dims(ctx, a):
+    x = XA()
+    K, T, S = a['K'], a['T'], a['S']
+    cs = _layer_cs(a['grid'], K)
+    modal, nodal = list(cs.horizontal.modal_shape), list(cs.horizontal.nodal_shape)
+    times = None if T is None else np.arange(T, dtype=np.float64)
+    samples = None if S is None else np.arange(S)
+    def addl_dict(): return {nm: np.zeros(tuple(sh)) for nm, sh in a['addl']}
+    hdr = [K] + modal + nodal + [int(T is not None), T or 0, int(S is not None), S or 0]
+    def enc_addl(items):
+        out = [len(items)]
+        for nm, sh in items: out += [dim_code(nm), len(sh)] + list(sh)
+        return out
+    def enc_tab(t):
+        # compared as a mapping (sorted entries): the insertion order of non-colliding keys is not observable,
+        # the overwrite order of colliding keys is (through the values)
+        return [1, len(t)] + sorted([[int(v) for v in shp], [dim_code(d) for d in dims]] for shp, dims in t.items())
+    def dec_tab(m):
+        if m is None: return None
+        if m[0] != 1: return [0]
+        it = iter(int(v) for v in m[2:]); out = []
+        for _ in range(int(m[1])):
+            ls = next(it); shp = [next(it) for _ in range(ls)]; ld = next(it); out.append([shp, [next(it) for _ in range(ld)]])
+        return [1, len(out)] + sorted(out)
+    # the table itself, as _infer_dims_shape_and_coords builds it
+    try:
+        _, tab = x.xu._infer_dims_shape_and_coords(cs, times, samples, addl_dict())
+        impl = enc_tab(tab)
+    except ValueError:
+        tab = None; impl = [0]
+    ctx.exact('_infer_dims_shape_and_coords table', impl, dec_tab(ctx.model.call(30, hdr + enc_addl(a['addl']))))
+    ctx.count('dims:table=' + ('ok' if tab is not None else 'raises'))
+    # data_to_xarray: which names a value of a given shape receives
+    m = ctx.model.call(31, hdr + enc_addl(a['addl']))
+    mt = None
+    if m and m[0] == 1:
+        it = iter(int(v) for v in m[2:]); mt = {}
+        for _ in range(int(m[1])):
+            ls = next(it); shp = tuple(next(it) for _ in range(ls)); ld = next(it); mt[shp] = [next(it) for _ in range(ld)]
+    pre = (() if S is None else (S,)) + (() if T is None else (T,))
+    real = (1,) if any(nm == 'realization' for nm, _ in a['addl']) else ()
+    roles = [(), (K,) + tuple(modal), (K,) + tuple(nodal), tuple(nodal), tuple(modal), (1,) + tuple(nodal), (1,) + tuple(modal), (1,),
+             (K + 1,) + tuple(nodal), tuple(nodal)[::-1], (2,)]
+    adm = bool(K != 1 and nodal != modal)
+    ma = ctx.model.call(32, [K] + modal + nodal)
+    ctx.exact('admissible', [int(adm)], ints_of(ma))
+    ctx.count('dims:admissible=%d' % adm)
+    documented = {(): (), (K,) + tuple(modal): ('level', 'longitudinal_mode', 'total_wavenumber'),
+                  (K,) + tuple(nodal): ('level', 'lon', 'lat'), tuple(nodal): ('lon', 'lat'),
+                  tuple(modal): ('longitudinal_mode', 'total_wavenumber'), (1,) + tuple(nodal): ('surface', 'lon', 'lat'),
+                  (1,) + tuple(modal): ('surface', 'longitudinal_mode', 'total_wavenumber'), (1,): ('surface',)}
+    for r in roles:
+        full = ((real if r else ()) + pre + r)
+        try:
+            ds = x.xu.data_to_xarray({'x': np.zeros(full)}, coords=cs, times=times, sample_ids=samples,
+                                     additional_coords=addl_dict(), serialize_coords_to_attrs=False)
+            got = [dim_code(d) for d in ds['x'].dims]
+        except ValueError:
+            got = 'raises'
+        if mt is None: want = 'raises'
+        else:
+            d = mt.get(tuple(full))
+            want = 'raises' if d is None or len(d) != len(full) or len(set(d)) != len(d) else d
+        ctx.exact('data_to_xarray dims of a value of shape %s' % (list(full),), got, want)
+        if adm and not a['addl'] and r in documented:
+            pd = (() if S is None else ('sample',)) + (() if T is None else ('time',))
+            ctx.oracle('admissible coordinate system: every documented role gets its documented dimension names',
+                       got != 'raises' and got == [dim_code(n) for n in pd + documented[r]], {'shape': list(full), 'got': got})
+    if K == 1: ctx.count('dims:one-layer (3-d nodal field cannot be labelled)')
+    if nodal == modal: ctx.count('dims:nodal_shape == modal_shape')
+
+
+def _enc_attrs(at):
+    """python attrs dict -> (ints, arrs) for cmd 41 and a comparable list for cmd 40"""
+    ints = [len(at)]; pool = []; arrs = [pool]; flat = [float(len(at))]
+    for k, v in at.items():
+        ints += enc_key(k); flat += [float(t) for t in enc_key(k)]
+        if isinstance(v, bool) or isinstance(v, (int, np.integer)):
+            ints += [0, int(v)]; flat += [0.0, float(v)]
+        elif isinstance(v, str):
+            ints += [1] + enc_key(v); flat += [1.0] + [float(t) for t in enc_key(v)]
+        elif isinstance(v, float):
+            ints += [2, len(pool)]; pool.append(v); flat += [2.0, v]
+        elif isinstance(v, (list, tuple)):
+            ints += [3, len(arrs)]; arrs.append([float(t) for t in v]); flat += [3.0, float(len(v))] + [float(t) for t in v]
+        else:
+            raise TypeError('unsupported attr value %r' % (v,))
+    if not pool: pool.append(0.0)
+    return ints, arrs, flat
+
+
+def r_attrs_model(ctx, a):
+    x = XA()
+    lw, tw, ln, lt = a['grid']
+    impl_cls = getattr(x.sh, a['impl'])
+    grid = x.sh.Grid(longitude_wavenumbers=lw, total_wavenumbers=tw, longitude_nodes=ln, latitude_nodes=lt,
+                     latitude_spacing=a['spacing'], longitude_offset=a['offset'], radius=a['radius'],
+                     spherical_harmonics_impl=impl_cls)
+    v = a['vertical']
+    vert = {'sigma': lambda: x.sc.SigmaCoordinates(np.asarray(v['values'])), 'layer': lambda: x.lc.LayerCoordinates(v['layers']),
+            'pressure': lambda: x.vi.PressureCoordinates(np.asarray(v['values']))}[v['kind']]()
+    cs = x.cs.CoordinateSystem(grid, vert)
+    at = cs.asdict()
+    ints, arrs, flat = _enc_attrs(at)
+    vk = {'sigma': 1, 'layer': 2, 'pressure': 3}[v['kind']]
+    m = ctx.model.call(40, [lw, tw, ln, lt] + enc_key(a['spacing']) + enc_key(a['impl']) + [0] + enc_key('') + [vk] +
+                       ([v['layers']] if vk == 2 else []),
+                       [[a['offset'], 1.0 if a['radius'] is None else a['radius']], v.get('values', [0.0])])
+    ctx.exact('CoordinateSystem.asdict (keys in order, values exact)', [1.0] + flat + [1.0, 1.0], flo(m))
+    ctx.count('attrs_model:vertical=' + v['kind']); ctx.count('attrs_model:mut=%s' % a['mut'])
+    # from_attrs on the (possibly damaged) dictionary
+    at2 = dict(at); mut = a['mut']
+    if mut:
+        if mut.startswith('drop:'): at2.pop(mut[5:])
+        elif mut.startswith('htype:'): at2['horizontal_grid_type'] = mut[6:]
+        elif mut.startswith('vtype:'): at2['vertical_grid_type'] = mut[6:]
+        elif mut == 'novertical': at2.pop('vertical_grid_type')
+        elif mut == 'spacing:bad': at2['latitude_spacing'] = 'gaussian'
+        elif mut == 'bad-vertical':
+            if 'boundaries' in at2: at2['boundaries'] = list(at2['boundaries'][::-1])
+            elif 'centers' in at2: at2['centers'] = list(at2['centers']) + [at2['centers'][-1]]
+    try:
+        cs2 = x.xu.coordinate_system_from_attrs(at2)
+        h = cs2.horizontal
+        impl = [1.0, h.longitude_wavenumbers, h.total_wavenumbers, h.longitude_nodes, h.latitude_nodes] + \
+               [float(t) for t in enc_key(h.latitude_spacing)] + [float(h.longitude_offset), float(h.radius)] + \
+               [float(t) for t in enc_key(h.spherical_harmonics_impl.__name__)] + [0.0 if h.spmd_mesh is None else 1.0]
+        vv = cs2.vertical
+        if vv is None: impl += [0.0]
+        elif isinstance(vv, x.sc.SigmaCoordinates): impl += [1.0, float(len(vv.boundaries))] + [float(t) for t in vv.boundaries]
+        elif isinstance(vv, x.lc.LayerCoordinates): impl += [2.0, float(vv.layers)]
+        else: impl += [3.0, float(len(vv.centers))] + [float(t) for t in vv.centers]
+        impl = [float(t) for t in impl]
+    except (KeyError, ValueError, TypeError):
+        cs2 = None; impl = [0.0]
+    i2, a2, _ = _enc_attrs(at2)
+    ctx.exact('coordinate_system_from_attrs', impl, flo(ctx.model.call(41, i2, a2)))
+    if not mut:
+        h, g = cs2.horizontal if cs2 else None, cs.horizontal
+        ok = cs2 is not None and all(getattr(h, f) == getattr(g, f) for f in
+                                     ('longitude_wavenumbers', 'total_wavenumbers', 'longitude_nodes', 'latitude_nodes',
+                                      'latitude_spacing', 'longitude_offset', 'radius')) and cs2.vertical == cs.vertical \
+            and type(cs2.vertical) is type(cs.vertical) and np.array_equal(cs2.vertical.centers, cs.vertical.centers)
+        if ok and v['kind'] == 'sigma': ok = np.array_equal(cs2.vertical.boundaries, cs.vertical.boundaries)
+        ctx.oracle('coordinate system serialised to attrs is reconstructed with the same discretisation', ok,
+                   {'check': 'fields of Model/Attrs.v restored', 'attrs': {k: at[k] for k in at}})
+        if cs2 is not None and h.spherical_harmonics_impl is not g.spherical_harmonics_impl:
+            ctx.count('attrs_model:not-restored:spherical_harmonics_impl')
 
 
 # ===========================================================================
@@ -1448,6 +1693,10 @@ def _g_vert(rng, kind=None, K=None):
     kind = kind or _pick(rng, ['sigma', 'sigma', 'sigma_eq', 'layer', 'pressure'])
     if kind == 'sigma':
         K = K or int(rng.integers(1, 9))
+        if rng.random() < 0.5:   # boundaries that need all 17 significant digits (no short decimal form)
+            inner = np.sort(rng.uniform(0.01, 0.99, size=K - 1))
+            if K == 1 or np.all(np.diff(inner) > 1e-6):
+                return {'type': 'sigma', 'boundaries': [0.0] + [float(x) for x in inner] + [1.0]}
         return {'type': 'sigma', 'boundaries': util.uneven_boundaries(rng, K).tolist()}
     if kind == 'sigma_eq':
         return {'type': 'sigma_eq', 'layers': K or int(rng.integers(1, 9))}
@@ -1664,9 +1913,12 @@ def generate(ctx):
     yield from gen_dicts(ctx)
     yield from gen_arrays(ctx)
     yield from gen_spectral(ctx)
+    yield from gen_dims(ctx)
+    yield from gen_attrs_model(ctx)
     yield from gen_part4(ctx)
 
 
 RUNNERS = {'dict': r_dict, 'unflatten': r_unflatten, 'replace': r_replace, 'pack': r_pack, 'stack': r_stack,
-           'split': r_split, 'split_axis': r_split_axis, 'concat': r_concat, 'spectral': r_spectral}
+           'split': r_split, 'split_axis': r_split_axis, 'concat': r_concat, 'spectral': r_spectral,
+           'dims': r_dims, 'attrs_model': r_attrs_model}
 RUNNERS.update(RUNNERS_PART4)
